@@ -3,7 +3,7 @@
     end-of-stream theorem over all schedules is NOT proved (DESIGN.md); that clause rests on the
     correspondence (model = code) plus the implementation-side prefix/EOS oracle as counterexample search. *)
 From Coq Require Import ZArith List Bool.
-From Nice Require Import Base.Bytes Ptcp.PtcpModel Ptcp.PtcpProofs.
+From Nice Require Import Base.Bytes Ptcp.PtcpModel Ptcp.PtcpProofs Ptcp.ReassemblyProofs.
 Import ListNotations.
 Local Open Scope Z_scope.
 
@@ -21,3 +21,20 @@ Theorem C08_in_order_segment_appended_exactly_partial : forall f d,
   exists f2, rb_commit f1 (len d) = Ok f2 /\ rb_data f2 = rb_data f ++ d /\ rb_n f2 = len (rb_data f2) /\
              rb_cap f2 = rb_cap f /\ rb_total f2 = rb_total f + len d.
 Proof. exact rbuf_in_order_append. Qed.
+
+(** Receive-side reassembly, for EVERY arrival order, duplication and overlap of the segments: if each stored extent carries the stream's
+    own bytes at its position ([consistent]) and the positions being committed are covered, the bytes that become readable are exactly the
+    stream's bytes at those positions. *)
+Theorem C08_reassembly_delivers_the_stream_partial : forall S fut total n,
+  0 <= total -> total + Z.of_nat n <= len S -> Forall (consistent S) fut ->
+  (forall i, (i < n)%nat -> coveredb fut (total + Z.of_nat i) = true) ->
+  fut_bytes fut total n = firstn n (skipn (Z.to_nat total) S).
+Proof. exact reassembly_delivers_the_stream. Qed.
+
+(** ... lifted to the receive FIFO: a commit of covered bytes appends the stream's next bytes to the readable data *)
+Theorem C08_commit_appends_the_stream_partial : forall S f n f2,
+  0 <= rb_total f -> 0 <= n -> rb_total f + n <= len S -> Forall (consistent S) (rb_fut f) ->
+  (forall i, (i < Z.to_nat n)%nat -> coveredb (rb_fut f) (rb_total f + Z.of_nat i) = true) ->
+  rb_commit f n = Ok f2 ->
+  rb_data f2 = rb_data f ++ firstn (Z.to_nat n) (skipn (Z.to_nat (rb_total f)) S) /\ rb_total f2 = rb_total f + n.
+Proof. exact rb_commit_appends_stream. Qed.
